@@ -13,3 +13,11 @@ func VerifC13HostState(host string) (ratelimiter.VerifState, bool) {
 	}
 	return ratelimiter.VerifHostState(globalBucketManager, host)
 }
+
+// VerifC13GrantAll ends an observation: every caller still polling host's bucket is let go (see
+// ratelimiter.VerifGrantAll); nothing is measured after this call.
+func VerifC13GrantAll(host string) {
+	if globalBucketManager != nil {
+		ratelimiter.VerifGrantAll(globalBucketManager, host)
+	}
+}
